@@ -91,6 +91,21 @@ def parse_canon(r):
     return [(r.nat(), r.nat(), r.nat()) for _ in range(n)]
 
 
+def vanishing_vertex_normal(v, t):
+    """some vertex whose summed triangle normals cancel to rounding level (relative to the largest triangle normal)"""
+    v = np.asarray(v, float); t = np.asarray(t, dtype=np.int64)
+    if t.ndim != 2 or t.shape[0] == 0 or t.shape[1] != 3 or t.max() >= len(v) or not np.all(np.isfinite(v)):
+        return False
+    with np.errstate(all="ignore"):
+        tv = v[t]
+        tn = np.cross(tv[:, 1] - tv[:, 0], tv[:, 2] - tv[:, 0])
+        acc = np.zeros_like(v)
+        for k in range(3):
+            np.add.at(acc, t[:, k], tn)
+        nn = np.linalg.norm(acc, axis=1)[np.unique(t)]
+        return bool(nn.min() < 1e-7 * np.abs(tn).max())
+
+
 class Check(BaseCheck):
     id = "C20"
     audit_mod = "LapyVerif.Audit.C20"
@@ -176,7 +191,14 @@ class Check(BaseCheck):
                     fails.append(core.Failure("correspondence", "history vs model", "driver: " + r[:80], case)); continue
                 steps = r.split(" | ")[1:]
                 illcond = False
+                prev = dict(v=np.asarray(v, float), t=np.asarray(t, dtype=np.int64))
                 for j, (s, mstep) in enumerate(zip(snaps, steps)):
+                    if not illcond and seq[j][0] == "d" and vanishing_vertex_normal(prev["v"], prev["t"]):
+                        # normal_offset_ divides the summed triangle normals of a vertex by their length: where the sum cancels (flat fans folded
+                        # back, 5e-15 against triangle normals of 0.06) the direction is rounding noise and its sign differs between summation orders
+                        illcond = True
+                        stats.monitor("histories whose coordinates became ill-conditioned (connectivity still compared)")
+                    prev = s
                     rr = wire.Reply("ok " + mstep)
                     mv = rr.v3s(); nt = rr.nat(); mt = np.array([[rr.nat(), rr.nat(), rr.nat()] for _ in range(nt)], dtype=np.int64).reshape(-1, 3)
                     msym = parse_canon(rr); mdir = parse_canon(rr)
